@@ -25,6 +25,7 @@ type KV struct{ K, V string }
 type Req struct {
 	Method    string
 	Host      string // host:port, also the Host header
+	Addr      string // TCP address to dial when it differs from Host (virtual-host style requests)
 	Path      string
 	Query     []KV // decoded; sent URI-encoded in this order
 	RawTarget string
@@ -194,7 +195,11 @@ func (p *Resp) ErrCode() string {
 
 // Send writes the request over a fresh TCP connection and reads one response.
 func Send(r *Req) (*Resp, error) {
-	conn, err := net.DialTimeout("tcp", r.Host, 30*time.Second)
+	addr := r.Addr
+	if addr == "" {
+		addr = r.Host
+	}
+	conn, err := net.DialTimeout("tcp", addr, 30*time.Second)
 	if err != nil {
 		return nil, err
 	}
